@@ -352,6 +352,8 @@ class Path:
         f = frame
         while f is not None:
             if name in f.locals:
+                if name in getattr(f, "maybe", ()) and not self.loops:
+                    self._ev("unbound", name=name, node=self.curnode)
                 return f.locals[name]
             f = f.parent
         rel = frame.rel
@@ -363,6 +365,9 @@ class Path:
             return self.eval(v, Frame(rel=rel))
         if name in ("None", "True", "False"):
             return ("c", {"None": None, "True": True, "False": False}[name])
+        names = self.I.modnames(rel)
+        if names is not None and name not in names and not name.startswith("<"):
+            self._ev("unbound", name=name, node=self.curnode)
         return ("g", name)
 
     # ------------------------------------------------------------------ expressions
@@ -739,6 +744,8 @@ class Path:
     def assign(self, tg, v, fr, node):
         if isinstance(tg, ast.Name):
             fr.locals[tg.id] = v
+            if not self.loops and tg.id in getattr(fr, "maybe", ()):
+                fr.maybe.discard(tg.id)
         elif isinstance(tg, ast.Attribute):
             self._setattr(self.eval(tg.value, fr), tg.attr, v, node)
         elif isinstance(tg, ast.Subscript):
@@ -778,7 +785,10 @@ class Path:
         for s in stmts:
             self.stmt(s, fr)
 
+    curnode = None
+
     def stmt(self, s, fr):
+        self.curnode = s
         if isinstance(s, ast.Assign):
             v = self.eval(s.value, fr)
             for t in s.targets:
@@ -820,6 +830,7 @@ class Path:
                     except _LoopCtl:
                         pass
             else:
+                before = set(fr.locals)
                 self.loops = self.loops + [it]
                 self.assign(s.target, ("elem", it), fr, s)
                 try:
@@ -827,6 +838,8 @@ class Path:
                 except _LoopCtl:
                     pass
                 self.loops = self.loops[:-1]
+                # the loop may run zero times: what it bound first is not surely bound afterwards
+                fr.maybe = getattr(fr, "maybe", set()) | (set(fr.locals) - before)
             self.block(s.orelse, fr)
         elif isinstance(s, ast.While):
             self.loops = self.loops + [("c", "while")]
@@ -846,6 +859,8 @@ class Path:
             self.trycount[id(s)] = k + 1
             raises = s.handlers and not self._truth(("call", "<completes>", (("c", getattr(s, "lineno", 0)), ("c", k)), ()))
             if raises:
+                if s.handlers[0].name:
+                    fr.locals[s.handlers[0].name] = ("s", "<exception>")
                 self.block(s.handlers[0].body, fr)
             else:
                 self.block(s.body, fr)
@@ -859,7 +874,13 @@ class Path:
             fr.locals[s.name] = self._fnval(s, fr)
         elif isinstance(s, (ast.Break, ast.Continue)):
             raise _LoopCtl()
-        elif isinstance(s, (ast.Pass, ast.Assert, ast.Import, ast.ImportFrom, ast.Global, ast.Nonlocal, ast.Delete, ast.ClassDef)):
+        elif isinstance(s, (ast.Import, ast.ImportFrom)):
+            for al in s.names:
+                nm = (al.asname or al.name).split(".")[0]
+                fr.locals[nm] = ("g", al.asname or al.name)
+        elif isinstance(s, ast.ClassDef):
+            fr.locals[s.name] = ("g", s.name)
+        elif isinstance(s, (ast.Pass, ast.Assert, ast.Global, ast.Nonlocal, ast.Delete)):
             pass
         else:
             raise Unsupported(f"statement {type(s).__name__}")
@@ -903,6 +924,30 @@ class Interp:
                 elif isinstance(st, ast.AnnAssign) and isinstance(st.target, ast.Name) and st.target.id == name and st.value is not None:
                     v = st.value
             self._mc[key] = v
+        return self._mc[key]
+
+    def modnames(self, rel):
+        """names bound at module level (imports, definitions, assignments) and builtins; None when a star import makes the set unknown"""
+        key = ("names", rel)
+        if key not in self._mc:
+            import builtins
+            out = set(dir(builtins))
+            star = False
+            for st in ast.walk(self.ctx.src.mod(rel).tree):
+                if isinstance(st, (ast.Import, ast.ImportFrom)):
+                    for al in st.names:
+                        if al.name == "*":
+                            star = True
+                        out.add((al.asname or al.name).split(".")[0])
+                elif isinstance(st, (ast.FunctionDef, ast.AsyncFunctionDef, ast.ClassDef)):
+                    out.add(st.name)
+                elif isinstance(st, ast.Global):
+                    out.update(st.names)
+            for st in self.ctx.src.mod(rel).tree.body:
+                for x in ast.walk(st) if not isinstance(st, (ast.FunctionDef, ast.AsyncFunctionDef, ast.ClassDef)) else ():
+                    if isinstance(x, ast.Name) and isinstance(x.ctx, ast.Store):
+                        out.add(x.id)
+            self._mc[key] = None if star else out
         return self._mc[key]
 
     def pin(self, P, t):
